@@ -27,7 +27,10 @@ Init == /\ blocks \in [1..NBlocks -> [rock : Rocks, vol : VolClasses]]
         /\ \A i \in (natm + 1)..NBlocks : blocks[i].vol # "cell" =>
               \E j \in {i - 1, i + 1} : j > natm /\ j <= NBlocks /\ blocks[j].vol = "cell"
         /\ natm = 2 => \A i \in (natm + 1)..NBlocks : blocks[i].vol = "cell"
-        /\ gens \in {<<>>, <<[blk |-> NBlocks, group |-> FALSE]>>, <<[blk |-> natm + 1, group |-> FALSE], [blk |-> NBlocks, group |-> TRUE]>>}
+        /\ gens \in {<<>>, <<[blk |-> NBlocks, group |-> FALSE]>>, <<[blk |-> natm + 1, group |-> FALSE], [blk |-> NBlocks, group |-> TRUE]>>,
+                     (* several generators outside any group (their names may be equal, or empty): one source each *)
+                     <<[blk |-> natm + 1, group |-> FALSE], [blk |-> NBlocks, group |-> FALSE]>>,
+                     <<[blk |-> natm + 1, group |-> FALSE], [blk |-> NBlocks, group |-> FALSE], [blk |-> natm + 1, group |-> FALSE]>>}
         /\ eosarg \in EosNames \cup {"none"} /\ eosmulti \in EosNames \cup {"none"} /\ eossim \in EosNames \cup {"none"}
         /\ Cardinality({eosarg, eosmulti, eossim} \ {"none"}) <= 1          \* one source of EOS information at a time (plus none)
 Next == UNCHANGED vars
